@@ -451,8 +451,10 @@ pub fn mint(g: &mut Gen) -> Mint {
     let mut used: Vec<Vec<u8>> = Vec::new();
     for _ in 0..g.small(4) {
         let p = script_hash(g);
-        // a Mint is a list of (policy, assets); the same policy twice would be a duplicate map key on the wire
-        if used.contains(&p.to_bytes()) {
+        // a Mint is a list of (policy, assets) and insert() never replaces: the same policy twice is constructible
+        // and goes out as a repeated map key. Schema-conforming generation (C03, C04) leaves it out; the general
+        // generators keep it, because the library has to read back what it writes (C01)
+        if used.contains(&p.to_bytes()) && g.cddl_ranges {
             continue;
         }
         used.push(p.to_bytes());
